@@ -78,6 +78,8 @@ def _common_config(rng, profile):
         'max_write': rng.choice([0, 0, 0, 16, 100, 1000]),
         'max_read': rng.choice([0, 0, 0, 16, 100, 1000]),
         'warmup': rng.choice([0.0, 0.5, 3.0, 100.0]),
+        # clock skew between the file system of the sources and the local clock / cache file system
+        'src_skew': rng.choice([0.0, 0.0, 0.0, 0.0, 300.0, -300.0, 86400.0, -86400.0]) if profile != 'diff' else 0.0,
     }
     return cfg
 
@@ -262,7 +264,7 @@ def make_torn(rng, tier):
         if rng.random() < 0.4:
             # the surviving process itself must be able to save again once faults have stopped
             ops.extend(_edit_ops(rng, dict(cfg), state, f=f)[-1:])
-            ops[-1].update({'how': 'atomic', 'mt': None, 'dt': 5.0})
+            ops[-1].update({'how': 'atomic', 'mt': None, 'dt': 5.0, 'noskew': True})
             ops.append({'k': 'repaircheck', 'p': p, 'f': f, 'g': g, 'c': c, 'inproc': True})
         else:
             ops.append({'k': 'repaircheck', 'p': p, 'f': f, 'g': g, 'c': c})
